@@ -153,6 +153,9 @@ where
   /// Returns a `Future` that resolves to the message or an error if the
   /// channel is disconnected.
   pub fn recv(&self) -> RecvFuture<'_, (K, T)> {
+    if self.closed.load(Ordering::Relaxed) {
+      return self.consumer.recv_async_rejected();
+    }
     self.consumer.recv_async()
   }
 
@@ -166,6 +169,9 @@ where
   /// - `Err(TryRecvError::Disconnected)`: The sender has been dropped and the
   ///   mailbox is empty.
   pub fn try_recv(&self) -> Result<(K, T), TryRecvError> {
+    if self.closed.load(Ordering::Relaxed) {
+      return Err(TryRecvError::Disconnected);
+    }
     self.consumer.try_recv()
   }
 
@@ -240,7 +246,9 @@ where
 
   fn close_internal(&self) {
     if let Some(dispatcher) = self.dispatcher.upgrade() {
-      let topics_to_unsubscribe: Vec<K> = self.subscriptions.lock().drain().collect();
+      // `unsubscribe` removes each topic from the set itself (and returns early for a topic
+      // that is not in it), so the set must not be drained beforehand.
+      let topics_to_unsubscribe: Vec<K> = self.subscriptions.lock().iter().cloned().collect();
       for topic in topics_to_unsubscribe {
         self.unsubscribe(&topic);
       }
@@ -349,6 +357,9 @@ where
   fn poll_next(self: Pin<&mut Self>, cx: &mut Context<'_>) -> Poll<Option<Self::Item>> {
     // We can use Pin::get_mut because we are not moving out of the future.
     let receiver = self.get_mut();
+    if receiver.closed.load(Ordering::Relaxed) {
+      return Poll::Ready(None);
+    }
     match Pin::new(&mut receiver.consumer.recv_async()).poll(cx) {
       Poll::Ready(Ok(value)) => Poll::Ready(Some(value)),
       Poll::Ready(Err(_)) => Poll::Ready(None), // Disconnected
